@@ -207,4 +207,91 @@ for extra in (0, 1, 2):
             leg.violation(key, f"{tag}: visible {vis}, expected {w}; error={err!r}")
         elif any(n in vis for n in ("await_", "_greenback_shim", "trampoline", "switch")):
             leg.violation(key, f"{tag}: bridging internals not hidden: {vis}")
+
+# ---- the worker greenlet's parent chain contains a FINISHED greenlet (a spawner that created the worker and returned): the
+# task's stack, asked for from inside the worker, still runs from the task's coroutine through the sync frames into the worker
+def nested_dead_parent():
+    seen = {}
+    def record(tag):
+        st = stackscope.extract(trio.lowlevel.current_task())
+        seen[tag] = ([f.funcname for f in st.frames if not f.hide], st.error)
+    def sync_body():
+        record("plain")
+        hold = {}
+        def spawner():
+            hold["w"] = greenlet.greenlet(worker)          # parent of the worker = spawner
+            return "spawned"
+        def worker():
+            record("dead-parent")
+            return 2
+        sp = greenlet.greenlet(spawner)
+        assert sp.switch() == "spawned" and sp.dead
+        assert hold["w"].switch() == 2
+    async def a_level(): sync_level()
+    def sync_level(): sync_body()
+    async def main():
+        await greenback.ensure_portal()
+        greenback.await_  # noqa
+        await a_level()
+    trio.run(main)
+    return seen
+
+key = ("greenback-nested-greenlet-dead-parent",)
+leg.case(key, True)
+try:
+    seen = nested_dead_parent()
+    core = lambda names: [n for n in names if n in ("main", "a_level", "sync_level", "sync_body", "worker")]
+    for tag, w in (("plain", ["main", "a_level", "sync_level", "sync_body"]), ("dead-parent", ["main", "a_level", "sync_level", "sync_body", "worker"])):
+        vis, err = seen.get(tag, (None, None))
+        if vis is None or core(vis) != w or err is not None:
+            leg.violation(key, f"{tag}: visible {vis}, expected {w}; error={err!r}")
+except BaseException as e:
+    leg.violation(key, f"harness error {e!r}")
+
+# ---- asyncio host: a cancellation is THROWN into the task and travels through an await_ bridge; the bridging internals (incl.
+# outcome's send helpers) stay hidden, from inside the task and from outside
+import asyncio
+def asyncio_bridge():
+    seen = {}
+    def visible(stack):
+        return [f.pyframe.f_code.co_name for f in stack.frames if not f.hide]
+    async def park(tag):
+        task = asyncio.current_task(); loop = asyncio.get_running_loop(); fut = loop.create_future()
+        def report():
+            st = stackscope.extract(task.get_coro()); seen[tag + "/outside"] = (visible(st), st.error); fut.set_result(None)
+        loop.call_soon(report)
+        await fut
+    def cleanup_sync(tag): greenback.await_(park(tag))
+    async def victim(tag, cancel):
+        try:
+            if cancel: asyncio.current_task().cancel()
+            await asyncio.sleep(0)
+        finally:
+            st = stackscope.extract(asyncio.current_task().get_coro()); seen[tag + "/inside"] = (visible(st), st.error)
+            cleanup_sync(tag)
+    def sync_mid(tag, cancel): greenback.await_(victim(tag, cancel))
+    async def top_async(tag, cancel):
+        try:
+            sync_mid(tag, cancel)
+        except asyncio.CancelledError:
+            asyncio.current_task().uncancel()
+    async def main():
+        await greenback.ensure_portal()
+        await top_async("normal", False)
+        await top_async("cancelled", True)
+    asyncio.run(main())
+    return seen
+
+key = ("greenback-asyncio-cancellation",)
+leg.case(key, True)
+try:
+    seen = asyncio_bridge()
+    head = ["main", "top_async", "sync_mid", "victim"]
+    for tag in ("normal", "cancelled"):
+        for where, w in (("inside", head), ("outside", head + ["cleanup_sync", "park"])):
+            vis, err = seen.get(f"{tag}/{where}", (None, None))
+            if vis is None or [n for n in vis if n != "greenback_shim"] != w or err is not None:
+                leg.violation(key, f"{tag}/{where}: visible {vis}, expected {w}; error={err!r}")
+except BaseException as e:
+    leg.violation(key, f"harness error {e!r}")
 leg.finish(exhaustive=True)
